@@ -97,15 +97,6 @@ theorem all3_pos {ms : List Member} {its : List It} {ims : List (Option (List Fl
     · exact hit.pos
     · exact ih m hm
 
-theorem unnamedNZ_of_declOk {d : Decl} (h : declOk d = true) : d.unnamedNZ = false := by
-  simp only [declOk, Bool.and_eq_true, Bool.or_eq_true] at h
-  unfold Decl.unnamedNZ
-  rcases h.1 with h | h
-  · simp [h]
-  · cases hw : d.width with
-    | none => simp
-    | some w => simp [hw] at h
-
 theorem qbetype_good {s : Sc} (h : s.size = 1 ∨ s.size = 2 ∨ s.size = 4 ∨ s.size = 8) :
     ∃ c, (qbetype s).map (·.2) = some c ∧ baseSize c = s.size ∧ baseKind c = scKind s ∧
       (s.isFloat = false → c = intBase s.size) := by
@@ -180,8 +171,6 @@ mutual
       have pfs := pf fs hgf
       obtain ⟨l, hl, hfo⟩ := pfs.its
       have hdecls := decls_ok (eraseF fs) pfs.wf
-      have hnz : ∀ d ∈ Abi.decls x86_64 (eraseF fs), d.unnamedNZ = false := fun d hd =>
-        unnamedNZ_of_declOk (List.all_eq_true.1 hok d hd)
       have hint : ∀ d ∈ Abi.decls x86_64 (eraseF fs), d.width.isSome → d.ty.isInt = true := by
         intro d hd hw
         have := (wfDecls_mem hwf.1 d hd).2.2.2
@@ -190,7 +179,7 @@ mutual
         exact this.1
       have hwft : WfType (erase (.su u false fs)) := by
         simp only [erase, WfType]
-        exact ⟨pfs.wf, hwf, fun _ => hnz⟩
+        exact ⟨pfs.wf, hwf⟩
       obtain ⟨_, a2, a3⟩ := aggAlign_props (T := x86_64) hwf.1
       have hpal := a3 hwf.2.1
       have hal1 : max (aggAlign x86_64 false (Abi.decls x86_64 (eraseF fs))) 1 =
@@ -284,7 +273,7 @@ mutual
           rw [flattenFields_flatL true fs ms none (by rw [hds]; exact hok)]
         · intro s' hs'; cases hs'
       | true =>
-        have hlay := layout_union hwf hnz
+        have hlay := layout_union hwf
         obtain ⟨L', uL, um, ua, us, _, _, _⟩ := union_facts hwf
         rw [hlay] at uL
         have uL' : Abi.layout x86_64 true false (Abi.decls x86_64 (eraseF fs)) = L' := by
